@@ -98,7 +98,10 @@ class SchedStream:
         return self._take(size)
 
     def readinto(self, buf):
-        view = memoryview(buf).cast('B')
+        view = memoryview(buf)
+        if view.nbytes == 0:
+            return 0                 # (a zero-size multi-dimensional view cannot be cast to bytes)
+        view = view.cast('B')
         out = self._take(view.nbytes)
         view[:len(out)] = out
         return len(out)
@@ -245,7 +248,7 @@ class Env:
         return self.counter
 
     def s3store(self, **kw):
-        return S3ChunkStore(self.s3.url, timeout=3, retries=Retry(connect=0, read=0, status=0, backoff_factor=0),
+        return S3ChunkStore(self.s3.url, timeout=60, retries=Retry(connect=0, read=0, status=0, backoff_factor=0),
                             **kw)
 
 
@@ -1395,7 +1398,7 @@ def chunked_transfer(ctx):
         for pieces in (1, 3):
             for cut in cuts:
                 mode['cut'], mode['pieces'] = cut, pieces
-                store = S3ChunkStore(f'http://127.0.0.1:{port}', timeout=(2, 2), retries=0)
+                store = S3ChunkStore(f'http://127.0.0.1:{port}', timeout=(20, 20), retries=0)
                 case = dict(kind='chunked-transfer', cut=cut, pieces=pieces)
                 what = None
                 try:
